@@ -258,7 +258,7 @@ def jobs(tier, seed):
         it.append(dict(name="copy_and_verify_range " + tag, fn=check_cavr, kw=dict(tag=tag, asz=a, gsz=g), unwind=12))
     for tag, a in (("char", 1), ("int", 4), ("llong", 8)):
         it.append(dict(name="copy_and_verify_buffer_address " + tag, fn=check_cavba, kw=dict(tag=tag, asz=a)))
-    for tag, a in (("char", 1), ("int", 4), ("llong", 8), ("vs24", 24), ("long", 8)):
+    for tag, a in (("char", 1), ("int", 4), ("llong", 8), ("vs24", 24), ("long", 8), ("arr4", 16), ("arr23", 48)):
         it.append(dict(name="unverified_safe_pointer_because " + tag, fn=check_usp, kw=dict(tag=tag, asz=a)))
     it.append(dict(name="copy_and_verify_string", fn=check_cavs, unwind=16))
     out = [Job("C10_%d" % i, src, it[i::8]) for i in range(8)]
